@@ -296,6 +296,48 @@ class Interp:
             if pending:
                 self.nt = True
                 self.tags.add('self-close-with-messages-pending')
+        elif kind == 'multi_fn':
+            # the public helpers mido.ports.multi_send / multi_iter_pending / multi_receive over the raw device list
+            if self.kind != 'multi':
+                return
+            self.tags.add('multi-helper-functions')
+            which = op[1]
+            if which == 'send':
+                m = note(op[2])
+                res, sleeps = self._call(lambda: ports_mod.multi_send(w.devs, m))
+                failed = False
+                try:
+                    for d in w.mdevs:
+                        if d.closed:
+                            raise ModelOSError('closed')
+                        d.send(m.bytes())
+                except ModelOSError:
+                    failed = True
+                if failed != (res[0] == 'exc'):
+                    self._fail('multi_send', f'multi_send gave {res}, model says failed={failed}')
+            else:
+                want = []
+                for di, d in enumerate(w.mdevs):
+                    if not d.closed:
+                        while True:
+                            mm = d.poll()
+                            if mm is None:
+                                break
+                            want.append((di, mm))
+                if which == 'iter_pending':
+                    res, sleeps = self._call(lambda: list(ports_mod.multi_iter_pending(w.devs)))
+                    exp = [mm for _, mm in want]
+                else:
+                    res, sleeps = self._call(lambda: list(ports_mod.multi_receive(w.devs, yield_ports=True, block=False)))
+                    exp = [(w.devs[di], mm) for di, mm in want]
+                if res[0] != 'ok' or len(res[1]) != len(exp) or any(not (a == b) for a, b in zip(res[1], exp)):
+                    self._fail('multi-helper', f'{which}: got {res}, expected {exp}')
+                if sleeps:
+                    self._fail('nonblocking-sleeps', f'multi_{which} slept {sleeps} times')
+        elif kind == 'heal':
+            for d, m in zip(w.devs, w.mdevs):
+                d.fail_after = None
+                m.fail_after = None
         elif kind == 'fail_sends':
             self.tags.add('device-send-failure-injected')
             if not w.devs:
@@ -573,6 +615,14 @@ def make_machine(kind, autoreset):
         @rule(di=st.integers(0, 1), k=st.sampled_from([0, 1, 5, 31, 32, 40]))
         def device_starts_failing(self, di, k):
             self.ops.append(['fail_sends', di, k])
+
+        @rule()
+        def device_recovers(self):
+            self.ops.append(['heal'])
+
+        @rule(which=st.sampled_from(['send', 'iter_pending', 'receive']), k=st.integers(0, 5))
+        def multi_helper(self, which, k):
+            self.ops.append(['multi_fn', which, k])
 
         @rule(acts=st.lists(st.one_of(st.tuples(st.just('arrive'), st.integers(0, 1), st.one_of(ARR, SPLIT)).map(list),
                                       st.just(['eof'])), max_size=4))
